@@ -14,7 +14,7 @@
 (***************************************************************************)
 EXTENDS Parser, TLC, Json, SequencesExt
 
-CONSTANTS MaxCfg, MaxParse, Family, Emit, Reconfigure
+CONSTANTS MaxCfg, MaxParse, Family, Emit, Reconfigure, Small
 
 VARIABLES ps, hist, ncfg, nparse
 vars == <<ps, hist, ncfg, nparse>>
@@ -27,7 +27,7 @@ Org(f) == Origin(Pr, "k1", "s1", "m1", f, "none")
 
 TokTable ==
   CASE Family = "c15" ->
-         LET S == {<<a, b>> : a \in GenericVals, b \in GenericVals} IN
+         LET S == {<<a, b>> : a \in GenericVals, b \in (IF Small THEN GenericVals \ {"null"} ELSE GenericVals)} IN
          LET seq == SetToSeq(S) IN
          [i \in 1..Len(seq) |-> Tok(Org("none"), NoEdit, TRUE, [NoClaims EXCEPT !["iss"] = seq[i][1], !["ca"] = seq[i][2]])]
     [] Family = "c16" ->
@@ -48,6 +48,7 @@ Op4(op, k, v, t) == [op |-> op, k |-> k, v |-> v, t |-> t]
 
 CfgOps ==
   CASE Family = "c15" -> {Op4("check", k, v, 0) : k \in {"iss", "ca"}, v \in {"v1", "v2"}}
+                           \cup {Op4("extcheck", "ca", "v1", 0)}
     [] Family = "c16" -> {Op4("validate", k, kind, 0) : k \in {"ca", "cb"}, kind \in {"accept", "reject", "magic"}}
                            \cup {Op4("extvalid", k, kind, 0) : k \in {"ca", "cb"}, kind \in {"accept", "reject", "magic"}}
                            \cup {Op4("check", k, "v1", 0) : k \in {"ca", "cb"}}
